@@ -1852,9 +1852,8 @@ def remove_matrixzeros_sinex(sinex):
         # - update the creation time 
         # - then write to file
         header = read_sinex_header_line(sinex)
-        old_creation_time = header[15:27]
         creation_time = set_creation_time()
-        header = header.replace(old_creation_time, creation_time)
+        header = header[:15] + creation_time + header[27:]
         out.write(header)
         del header
 
